@@ -926,6 +926,10 @@ class Coalesce:
             if self.default is not _MISSING:
                 ret = arg_val(target, self.default, scope)
             elif self.default_factory is not _MISSING:
+                # the failed subspecs are forgiven: keep them out of the
+                # trace of any later error (default= achieves the same by
+                # evaluating the default in a fresh child scope)
+                scope.maps[0].pop(LAST_CHILD_SCOPE, None)
                 ret = self.default_factory()
             else:
                 raise CoalesceError(self, skipped, scope[Path])
